@@ -31,12 +31,16 @@ Inductive script := SOk | SErr (code : N) | SDisc (code : N) | SAsync.
 (* how an asynchronous callback is eventually completed *)
 Inductive result := ROk | RErr (code : N) | RDisc (code : N).
 
+(* what the application's OnCommandRead hook says about a command (called before the handler) *)
+Inductive rdres := RdOk | RdErr (code : N) | RdDisc (code : N).
+
 Record cmd := mkCmd {
   c_id : N;
   c_fields : list kind;   (* request fields that are non-nil (protocol.Command is not a oneof) *)
   c_chan : N;             (* channel carried by the request(s), 0 = "" *)
   c_tok : bool;           (* refresh / sub_refresh token non-empty *)
-  c_script : script
+  c_script : script;
+  c_read : rdres
 }.
 
 Record pend := mkPend { p_tok : N; p_id : N; p_kind : kind; p_chan : N }.
@@ -81,11 +85,15 @@ Definition handler_order : list kind :=
 
 Definition first_of (order : list kind) (c : cmd) : option kind := find (fun k => has k c) order.
 
-(* does this command, once dispatched, call for a reply? (pongs and sends do not) *)
+Definition rd_err (c : cmd) : bool := match c_read c with RdErr _ => true | _ => false end.
+Definition rd_ok (c : cmd) : bool := match c_read c with RdOk => true | _ => false end.
+
+(* does this command, once dispatched, call for a reply? (pongs and sends do not, unless the
+   OnCommandRead hook refuses the command with a client error) *)
 Definition expects (c : cmd) : bool :=
   negb (is_pong c) &&
   match first_of frame_order c, first_of handler_order c with
-  | Some _, Some KSend => false
+  | Some _, Some KSend => rd_err c
   | Some _, Some _ => true
   | _, _ => false
   end.
@@ -178,9 +186,18 @@ Definition run_handler (g : cfg) (s : st) (c : cmd) (k : kind) : hres :=
       else by_script (c_script c)
   end.
 
+(* issueCommandReadEvent comes first: an error from the hook is handled like an error returned
+   by the handler (handleCommandDispatchError) and the handler is not run *)
+Definition run_handler_rd (g : cfg) (s : st) (c : cmd) (k : kind) : hres :=
+  match c_read c with
+  | RdOk => run_handler g s c k
+  | RdErr code => HErr code
+  | RdDisc code => HDisc code
+  end.
+
 (* connect has its handler event even when OnConnecting fails *)
 Definition connect_invoked (s : st) (c : cmd) (k : kind) : bool :=
-  match k with KConnect => negb (s_auth s) | _ => false end.
+  match k with KConnect => negb (s_auth s) && rd_ok c | _ => false end.
 
 Definition state_after (s : st) (k : kind) (ch : N) : st :=
   match k with
@@ -203,7 +220,7 @@ Definition handle_command (g : cfg) (s : st) (c : cmd) : option (st * list out *
   match first_of frame_order c, first_of handler_order c with
   | Some _, Some k =>
       let hev := if connect_invoked s c k then [OHandler k id] else [] in
-      match run_handler g s c k with
+      match run_handler_rd g s c k with
       | HBlocked => None
       | HErr code =>
           if has KConnect c
